@@ -291,8 +291,10 @@ pub fn slow_outcome(c: &SlowCase) -> Outcome {
                             }
                         }
                         // (5) a subscriber with an open window all along misses nothing
-                        if c.slow[j].is_empty() && msgs != published {
-                            fail!(f, format!("C12/{}/healthy-subscriber-affected", who), "subscriber {} never stalled but received {} of {} messages", j, msgs.len(), published.len());
+                        // (also one whose connection takes only k bytes per write call: every
+                        // write makes progress, so nothing is ever "full")
+                        if c.slow[j].iter().all(|e| matches!(e.1, WinEv::Partial(_) | WinEv::Open)) && msgs != published {
+                            fail!(f, format!("C12/{}/healthy-subscriber-affected", who), "subscriber {} never stalled (events {:?}) but received {} of {} messages", j, c.slow[j], msgs.len(), published.len());
                         }
                     }
                 }
